@@ -4,6 +4,7 @@ import inspect
 import malt
 from vf import e1 as _e1
 from vf import rt
+from vf.harness import c09_other as T2
 from vf.harness import c09_targets as T
 
 _e1._patch_late_conversion_detector()
@@ -18,6 +19,8 @@ FUNCS = {
     'lam_kwonly': (lambda a, *, k, m: (a, k, m) if a > k else (m, k, a)), 'clo': CLO, 'only_c2': ONLY_C2,
     'lam': LAM, 'loop0': LOOPFS[0], 'loop2': LOOPFS[2], 'unassigned': UNASSIGNED,
     'decorated': T.decorated.__wrapped_fn__, 'meth_unbound': T.Holder.meth,
+    # defined in c09_other, __module__ copied from c09_targets by functools.wraps
+    'foreign_wrapper': T2.scaled(T.plain),
 }
 CONV = {}
 CONV_ERR = {}
@@ -53,6 +56,7 @@ SHAPES = {
     'unassigned': [(1, ()), (0, ())],
     'decorated': [(1, ()), (2, ()), (0, ('a',)), (1, ('b',))],
     'meth_unbound': [(1, ()), (2, ('k',)), (1, ('b', 'k')), (0, ())],
+    'foreign_wrapper': [(1, ()), (2, ()), (0, ('a', 'b')), (3, ())],
 }
 
 
@@ -170,7 +174,23 @@ def conv_bm():
   return _BM[0]
 
 
-SEMANTIC = ['shared_cell', 'shared_global', 'shared_mutable_default', 'bound_method']
+def shared_global_foreign_module(v: int, a: int, b: int) -> bool:
+  """
+  post: _
+  """
+  # the wrapper's globals are those of the module that DEFINES it (c09_other), whatever
+  # its __module__ attribute says
+  f = FUNCS['foreign_wrapper']
+  g = conv('foreign_wrapper')
+  T2.set_global(v)
+  try:
+    return g(a, b)[1] == v and rt.same_obs(rt.obs(f, (a, b)), rt.obs(g, (a, b)))
+  finally:
+    T2.set_global(1000)
+
+
+SEMANTIC = ['shared_cell', 'shared_global', 'shared_mutable_default', 'bound_method',
+            'shared_global_foreign_module']
 
 
 def static_conditions():
@@ -182,8 +202,11 @@ def static_conditions():
     except Exception as e:  # pylint:disable=broad-except
       bad.append('%s: conversion failed: %s: %s' % (name, type(e).__name__, e))
       continue
-    if str(inspect.signature(g)) != str(inspect.signature(f)):
-      bad.append('%s: signature %s != %s' % (name, inspect.signature(g), inspect.signature(f)))
+    # the function's own parameter list (a functools.wraps wrapper advertises the wrapped
+    # function's signature through __wrapped__, which is not what calls bind against)
+    sf, sg = inspect.signature(f, follow_wrapped=False), inspect.signature(g, follow_wrapped=False)
+    if str(sg) != str(sf):
+      bad.append('%s: signature %s != %s' % (name, sg, sf))
     fd, gd = f.__defaults__ or (), g.__defaults__ or ()
     if len(fd) != len(gd) or any(p is not q for p, q in zip(fd, gd)):
       bad.append('%s: __defaults__ are not the same objects' % name)
